@@ -281,6 +281,7 @@ def run(ctx, chk):
     r1_argsets(ctx, chk)
     r2_precision(ctx, chk)
     r3_roles(ctx, chk)
+    shared.rule_node_keeps_transitions(ctx, chk, "C04.pre:C01.2")
     r4_before_pruning(ctx, chk)
     C01.r5_flag(ctx, chk, "C04.4:flag")
     # the strategies are extracted from the values the sweep left behind: they are the value-optimal actions only if the sweep
